@@ -157,6 +157,8 @@ def check(prog, run):
     r = run.rule("H3", "resolve_field (both executors): on_field_start precedes argument coercion and the resolver call; every "
                        "path that returns fires on_field_end exactly once after it (closures fail/complete fire it once; "
                        "complete cannot raise the class handled by else_)", 8)
+    from .. import usercalls
+    mr_user = excflow.MayRaise(prog, implicit=usercalls.implicit(prog, ["ResolverError"]))
     for mod, q in ((EXE, "Executor.resolve_field"), (BEXE, "BlockingExecutor.resolve_field")):
         f = prog.get_func(mod, q)
         run.looked_at(f)
@@ -217,7 +219,9 @@ def check(prog, run):
                     if k.arg == "else_" and isinstance(k.value, ast.Tuple) and isinstance(n.args[1], ast.Name) and n.args[1].id in f.nested:
                         cls = ast.unparse(k.value.elts[0])
                         then = f.nested[n.args[1].id]
-                        res = mr.of(then)
+                        # completion runs user code too (a type resolver, a custom scalar's serializer): a ResolverError raised
+                        # there reaches else_ just like an explicit raise would (vf/usercalls.py)
+                        res = mr_user.of(then)
                         r.instance("%s: then-closure %s may raise %s; else_ handles %s" % (q, then.name, sorted(res), cls))
                         if any(mr.u.is_subclass(e, cls) for e in res):
                             run.report(r, "%s:%s:double-end" % (mod, q), f.where(n),
